@@ -1,5 +1,6 @@
 import SeqVerif.Model.SearchDocsTotals
 import SeqVerif.Model.StoreSearch
+import SeqVerif.Model.ApiSpec
 import SeqVerif.Extracted.C05
 /-!
 # C05 - results are independent of how documents are split over fractions and shards
@@ -204,6 +205,72 @@ theorem c05_store_eq_spec (c : Cfg) (fs : List FracIdx) (q : Spec.Query) (from_ 
         r.total = (Spec.search (fs.flatMap (fun f => EvalTree.docsOf f.idx)) q from_ to_ (!c.desc) L c.withTotal).total) :=
   storeSearch_eq_spec c fs q from_ to_ L hok hmax
 
+/-! ## the public request: proxy request -> store request -> parameters -> result (Model/ApiSearch.lean) -/
+
+open SV.Api in
+/-- **One meaning, implemented twice.**  For every valid proxy request (declared order, `0 ≤ size`, `0 ≤ offset`,
+`offset+size` an `int`) the store request built by `GetAPISearchRequest` and the parameters `doSearch` derives from it
+(`seq.MID(req.From)`, `int(req.Size+req.Offset)`, `uint64(req.Interval)`, `MustDocsOrder`) are exactly `meaning r`:
+same window (also for MIDs above 2^63 that travel as negative int64), limit `offset+size`, interval, order, total. -/
+theorem c05_request_meaning (r : ProxyReq) (hv : r.valid) :
+    ∃ sr p, apiRequest r = some sr ∧ storeParams sr = some p ∧
+      p.from_ = (meaning r).from_ ∧ p.to_ = (meaning r).to_ ∧ p.limit = ((meaning r).offset + (meaning r).size : Nat) ∧
+      p.hi = (meaning r).hi ∧ p.desc = (meaning r).desc ∧ p.withTotal = (meaning r).withTotal ∧ p.hasAgg = false :=
+  params_of_valid r hv
+
+open SV.Api in
+/-- **c05_partition_invariant at `GrpcV1.Search(req)`.**  A store that does not refuse the request answers - for any
+partition of its documents into fractions, any `FractionsPerIteration` - with the first `Size+Offset` distinct IDs, in
+the requested order, of the matching documents inside `[seq.MID(From), seq.MID(To)]`. -/
+theorem c05_grpc_partition_invariant (s : StoreCfg) (fs : List RawFrac) (sr : StoreReq) (p : Params)
+    (hp : storeParams sr = some p) (hlim : 0 ≤ p.limit)
+    (hhot : (s.hot && s.mature && (decide (s.oldestCT = 0) || decide (s.oldestCT > (Go.wrapU64 sr.from_).toNat))) = false)
+    (hok : ∀ f, f ∈ fs → f.OK)
+    (hmax : s.maxHits = 0 ∨ (filterInRange (fs.map (·.toFrac p.from_ p.to_)) p.from_ p.to_).length ≤ s.maxHits) :
+    ∃ q, grpcSearch s fs sr = .ok q ∧ q.ids = (sd p.desc (windowDocs fs p.from_ p.to_)).take p.limit.toNat :=
+  grpcSearch_ids s fs sr p hp hlim hhot hok hmax
+
+open SV.Api in
+/-- **c05_store_eq_spec at `GrpcV1.Search(req)`**: over any list of well-formed fraction indexes the answer's IDs are
+those of `Spec.search` for the request's parameters (C02 discharges the per-fraction oracle). -/
+theorem c05_grpc_eq_spec (s : StoreCfg) (fs : List FracIdx) (q : Spec.Query) (sr : StoreReq) (p : Params)
+    (hp : storeParams sr = some p) (hlim : 0 ≤ p.limit)
+    (hhot : (s.hot && s.mature && (decide (s.oldestCT = 0) || decide (s.oldestCT > (Go.wrapU64 sr.from_).toNat))) = false)
+    (hok : ∀ f, f ∈ fs → f.OK p.from_)
+    (hmax : s.maxHits = 0 ∨ (filterInRange (fs.map (·.toFrac q p.from_ p.to_)) p.from_ p.to_).length ≤ s.maxHits) :
+    ∃ r, grpcSearch s (fs.map (rawOf · q)) sr = .ok r ∧
+      r.ids = (Spec.search (fs.flatMap (fun f => EvalTree.docsOf f.idx)) q p.from_ p.to_ (!p.desc) p.limit.toNat
+        p.withTotal).ids.map keyOf :=
+  grpcSearch_eq_spec s fs q sr p hp hlim hhot hok hmax
+
+open SV.Api in
+/-- **c05_paging at `Ingestor.Search(sr)`.**  For every valid request, any number of shards, any partition of each
+shard's documents into fractions, any per-store `FractionsPerIteration`, whichever replica answers: the proxy returns the
+window `[offset, offset+size)` of the duplicate-free ordered list of all matching documents inside the request's time
+range.  (Stores in cold mode without a `MaxFractionHits` limit - the refusals are modelled in `grpcSearch`.) -/
+theorem c05_request_page (r : ProxyReq) (hv : r.valid) (shards : List (List RawFrac)) (cfgs : List StoreCfg)
+    (hcfg : cfgs.length = shards.length) (hcold : ∀ s, s ∈ cfgs → s.hot = false ∧ s.maxHits = 0)
+    (hok : ∀ fs, fs ∈ shards → ∀ f, f ∈ fs → f.OK) :
+    ∃ sr q, apiRequest r = some sr ∧
+      proxySearch r ((cfgs.zip shards).map fun cs => grpcSearch cs.1 cs.2 sr) = .ok q ∧
+      q.ids = ((sd (meaning r).desc (windowDocs shards.flatten (meaning r).from_ (meaning r).to_)).drop (meaning r).offset).take
+        (meaning r).size :=
+  proxySearch_page r hv shards cfgs hcfg hcold hok
+
+open SV.Api in
+/-- requests the API does not give a meaning to are rejected before any store is asked (negative size or offset) ... -/
+theorem c05_request_invalid (r : ProxyReq) (answers : List Resp) (h : r.size < 0 ∨ r.offset < 0) :
+    proxySearch r answers = .invalidArgument := by
+  simp [proxySearch, h]
+
+open SV.Api in
+/-- ... but the STORE does not validate: `Size+Offset < 0` (a negative size, or an int64 overflow of the sum) on a
+scan-all request over at least one fraction in range makes `GrpcV1.Search` panic (`ids[:limit]` in `MergeQPRs`).
+Witness: `Size = -1`, `WithTotal`, one fraction with one document. -/
+theorem c05_grpc_negative_limit_witness :
+    grpcSearch ⟨false, false, 0, 1, 0⟩ [⟨1, 5, 5, [key 5 0]⟩] ⟨0, 100, -1, 0, 0, true, 0, false⟩ = .panic := by
+  decide +kernel
+
 /-- `seq.Less` on `{MID,RID}` is the order of the single number used by the model -/
 theorem c05_key_order (m1 r1 m2 r2 : Nat) (h1 : r1 < R) (h2 : r2 < R) :
     key m1 r1 < key m2 r2 ↔ idLess m1 r1 m2 r2 = true :=
@@ -253,6 +320,29 @@ theorem c05_x_proxy :
     paginateBody = ["if len(ids) > offset", "ids = ids[offset:]", "ids = ids[:0]", "if len(ids) > size",
                     "ids = ids[:size]", "size = len(ids)"] := by decide
 
+/-- `doSearch`: the conversions, the hot-store refusal (`OldestCT == 0 || OldestCT > from`) checked right after `from`
+is converted, the parameter literal, and the refusal codes - what `SV.Api.storeParams` / `grpcSearch` model -/
+theorem c05_x_grpc :
+    doSearchConversions = ["from := seq.MID(req.From)", "if g.config.StoreMode == StoreModeHot",
+      "if g.fracManager.Mature() && g.earlierThanOldestFrac(uint64(from))", "to := seq.MID(req.To)",
+      "limit := int(req.Size + req.Offset)"] ∧
+    doSearchParams = ["AST: ast", "AggQ: aggQ", "HistInterval: uint64(req.Interval)", "From: from", "To: to", "Limit: limit",
+      "WithTotal: req.WithTotal", "Order: req.Order.MustDocsOrder()"] ∧
+    doSearchOrder = ["convert from", "hot-check", "hot-check", "convert to", "convert limit", "params",
+      "SearchDocs(g.fracManager.GetAllFracs())"] ∧
+    earlierThanOldest = ["oldestCt := g.fracManager.OldestCT.Load()", "return oldestCt == 0 || oldestCt > from"] ∧
+    storeErrorCodes = ["errors.Is(e, consts.ErrTooManyUniqValues) => storeapi.SearchErrorCode_TOO_MANY_UNIQ_VALUES",
+      "errors.Is(e, consts.ErrTooManyFractionsHit) => storeapi.SearchErrorCode_TOO_MANY_FRACTIONS_HIT"] := by decide
+
+/-- the proxy: the store request literal (`Size` and `Offset` travel separately), the validation, the replica order -/
+theorem c05_x_proxy_request :
+    apiRequestFields = ["Query: util.ByteToStringUnsafe(sr.Q)", "From: int64(sr.From)", "To: int64(sr.To)",
+      "Size: int64(sr.Size)", "Offset: int64(sr.Offset)", "Interval: int64(sr.Interval)", "Aggs: convertToAggsQuery(sr.AggQ)",
+      "Explain: sr.Explain", "WithTotal: sr.WithTotal", "Order: storeapi.MustProtoOrder(sr.Order)"] ∧
+    proxyValidation = ["sr.Size < 0 || sr.Offset < 0"] ∧
+    replicaOrder = ["if si.config.ShuffleReplicas { idx = util.IdxShuffle(len(hosts)) } else { idx = util.IdxFill(len(hosts)) }",
+      "host := hosts[idx[i]]"] := by decide
+
 /-! ## Non-vacuity: the hypotheses are met by concrete non-trivial layouts -/
 
 /-- three fractions with overlapping ranges `[10,30]`, `[5,25]`, `[20,40]`, sorted by `To` descending, each within its
@@ -289,6 +379,10 @@ example :
 /-- a well-formed fraction index for `c05_store_eq_spec`: IDs 7:1, 7:0, 5:2 (descending), token a:x on LIDs 1 and 3 -/
 example : (⟨⟨[⟨7, 1⟩, ⟨7, 0⟩, ⟨5, 2⟩], [⟨[97], [120], [1, 3]⟩]⟩, 5, 7⟩ : FracIdx).OK 0 := by
   refine ⟨⟨?_, ?_⟩, ?_, ?_, Or.inr ?_, ?_⟩ <;> decide
+
+/-- a valid request whose window starts above 2^63 (travels as a negative int64) -/
+example : (⟨9223372036854775813, 18446744073709551615, 3, 2, 1000, true, 1⟩ : SV.Api.ProxyReq).valid := by
+  unfold SV.Api.ProxyReq.valid; decide
 
 /-- pages (0,2), (2,1), (3,3) of a 5-element list -/
 example : walkPages [50, 40, 30, 20, 10] 0 [2, 1, 3] = [50, 40, 30, 20, 10] := by decide
